@@ -256,6 +256,8 @@ func errClass(msg string) string {
 		{"expected end of scope", "expected-end-of-scope"},
 		{"invalid prefix variable", "invalid-prefix-variable"},
 		{"syntax error", "syntax-error"},
+		{"runtime error:", "parser-panic-recovered"}, // pigeon recovers panics of action code and returns them as errors
+		{"panic occurred", "parser-panic-recovered"},
 		{"Invalid return type", "invalid-return-type"},
 		{"Invalid argument type", "invalid-argument-type"},
 		{"Invalid exception type", "invalid-exception-type"},
@@ -284,6 +286,13 @@ func errClass(msg string) string {
 func modelSig(o *outcome) string {
 	switch o.Kind {
 	case "parse-error":
+		if c := errClass(o.Err); c == "parser-panic-recovered" { // pigeon turns a panic in an action into an error
+			site := "unknown-rule"
+			if m := regexp.MustCompile(`rule (\w+):`).FindStringSubmatch(o.Err); m != nil {
+				site = m[1]
+			}
+			return "C10:parser-panic:recovered:" + site
+		}
 		return "C10:valid-idl-rejected:" + errClass(o.Err)
 	case "panic":
 		return "C10:parser-panic:" + panicSite(o.Err)
@@ -294,6 +303,42 @@ func modelSig(o *outcome) string {
 		return "C10:mismatch:" + o.Diffs[0].Kind + "." + o.Diffs[0].Leaf
 	}
 	return "C10:mismatch:unknown"
+}
+
+// bisected is one culprit found by bisectStyle: part = "<knob>=<value>:<what>".
+type bisected struct {
+	part string
+	st   idl.Style
+	o    *outcome
+}
+
+// bisectStyle names the knob(s) that make eval fail, given that eval passes
+// with the default style and fails (outcome o) with st: first every differing
+// knob alone on top of the default style; if none reproduces the failure, the
+// knobs of st are reset greedily while it still fails (an interaction).
+func bisectStyle(st idl.Style, o *outcome, eval func(idl.Style) *outcome) []bisected {
+	def := idl.DefaultStyle()
+	failed := func(o *outcome) bool { return !o.OK && len(o.Classes) == 0 }
+	var out []bisected
+	for _, k := range differingKnobs(st) {
+		s1 := def
+		copyKnob(&s1, st, k)
+		if o1 := eval(s1); failed(o1) {
+			out = append(out, bisected{fmt.Sprintf("%s=%s:%s", k, knobValue(s1, k), o1.what()), s1, o1})
+		}
+	}
+	if len(out) > 0 {
+		return out
+	}
+	cur, last := st, o
+	for _, k := range differingKnobs(st) {
+		try := cur
+		copyKnob(&try, def, k)
+		if o1 := eval(try); failed(o1) {
+			cur, last = try, o1
+		}
+	}
+	return []bisected{{knobLabel(cur) + ":" + last.what(), cur, last}}
 }
 
 // explain reduces a failing rendering to signatures: a quarantined lexical
@@ -316,32 +361,14 @@ func (e *evaluator) explain(p *idl.Program, expected map[string]tree, st idl.Sty
 		if od.OK || len(od.Classes) > 0 {
 			// the model is fine: name the knob
 			var out []failure
-			for _, k := range differingKnobs(st) {
-				s1 := def
-				copyKnob(&s1, st, k)
-				o1 := e.run(p, expected, s1)
-				if !o1.OK && len(o1.Classes) == 0 {
-					out = append(out, mk(fmt.Sprintf("C10:style:%s=%s:%s", k, knobValue(s1, k), o1.what()), s1, o1))
-				}
+			for _, b := range bisectStyle(st, o, func(s idl.Style) *outcome {
+				o1 := e.run(p, expected, s)
 				e.cleanup(o1)
+				return o1
+			}) {
+				out = append(out, mk("C10:style:"+b.part, b.st, b.o))
 			}
-			if len(out) > 0 {
-				return out, false
-			}
-			// an interaction of knobs: reset knobs greedily while it still fails
-			cur := st
-			last := o
-			for _, k := range differingKnobs(st) {
-				try := cur
-				copyKnob(&try, def, k)
-				o1 := e.run(p, expected, try)
-				if !o1.OK && len(o1.Classes) == 0 {
-					cur = try
-					last = o1
-				}
-				e.cleanup(o1)
-			}
-			return []failure{mk(fmt.Sprintf("C10:style:%s:%s", knobLabel(cur), last.what()), cur, last)}, false
+			return out, false
 		}
 		o = od
 		st = def
